@@ -1,6 +1,10 @@
 """C20 — load-balancing and retry stubs keep their dispatch promises."""
+import os
+import re
+import sys
 import time
-from vlib import Scratch, log
+sys.path.insert(0, os.path.join(os.path.dirname(os.path.abspath(__file__)), "..", "mir2smt"))
+from vlib import Scratch, log, replay_test
 import kprop
 
 PID = "C20"
@@ -26,7 +30,6 @@ METAS = {
     "rr_seq_n5_deep": dict(rr(5, 16), thorough_only=True), "rr_seq_n6_deep": dict(rr(6, 16), thorough_only=True),
     "rr_conc_n4_deep": dict(rc(4), thorough_only=True),
     "ch_eq_n5_deep": dict(ch(5), thorough_only=True), "ch_eq_n6_deep": dict(ch(6), thorough_only=True),
-    "retry_ok_a7_deep": dict(rt(7), thorough_only=True),
 }
 STATIC = {
     "coverage": {
@@ -37,7 +40,7 @@ STATIC = {
             "tarpc::client::stub::retry::Retry::<closure, RB>::{new, call}  (Req = u32, Stub::Req = Arc<u32>)",
         ],
         "outside_claim": ["cursor wrap-around after 2^64 calls", "ConsistentHash::new (RandomState needs the OS RNG)",
-                          "true multi-threaded execution (Kani is sequential; the cursor is a single atomic fetch_add, so every threaded run is linearised to one of the explored poll orders)",
+                          "true multi-threaded execution under Kani (sequential); instead the MIR->SMT concurrency engine decides, for 2-3 threads x 1-2 calls x 2-3 backends and every sequentially consistent interleaving of the atomic operations in cycle::State::next, that picks stay balanced",
                           "more than 4 backends / 10 calls / 5 attempts", "Retry with Err results or a backend that returns Pending (a symbolic Result<_,RpcError> discriminant sends CBMC into RpcError's dyn-Error drop glue: >20 GB; Retry::call never inspects the result, it only hands it to the policy and returns it)"],
     },
     "assumptions": [
@@ -51,11 +54,56 @@ STATIC = {
 }
 
 
+def concurrency_engine(s, viol, inc):
+    """MIR -> SMT with the thread schedule as solver variables (mir2smt/conc.py)."""
+    import c15_engine
+    import conc
+    import mir2smt
+    log("  MIR->SMT concurrency engine (AtomicCycle cursor, symbolic thread schedule):")
+    rec = {"engine": "rustc-nightly MIR of cycle::State::next -> SMT (bit-vector cursor, Int schedule variables) -> z3 + cvc5"}
+    try:
+        mir = c15_engine.dump_mir(s)
+        r, results = conc.check_round_robin(mir, log=log)
+        rec.update(r)
+    except mir2smt.Unsupported as e:
+        rec["error"] = str(e)
+        inc.append(("mir2smt-conc", "next() is outside the supported MIR subset (%s): the single-atomic-operation assumption behind the Kani harnesses is NOT established" % e))
+        return rec
+    ok, out = replay_test(s, "rr_threads", {}, ["sequential_picks"])
+    m = re.search(r"PICKS \[([\d, ]+)\]", out or "")
+    if not m:
+        from vlib import run, ENV
+        env = dict(ENV); env["CARGO_TARGET_DIR"] = os.path.join(s.target, "replay-native")
+        rc, raw, _ = run(["cargo", "test", "--offline", "--test", "rr_threads", "--", "sequential_picks", "--nocapture"], cwd=os.path.join(s.root, "replay"), env=env, timeout=1200)
+        m = re.search(r"PICKS \[([\d, ]+)\]", raw)
+    real = [int(x) for x in m.group(1).split(",")] if m else None
+    rec["translation_validation"] = {"model_picks_sequential": rec.get("sequential_model_picks"), "real_picks_sequential": real}
+    if real is None or real != rec.get("sequential_model_picks"):
+        inc.append(("mir2smt-conc", "model and real RoundRobin disagree on sequential picks: %s vs %s" % (rec.get("sequential_model_picks"), real)))
+    sat = [q for q in results if q["verdict"] == "sat"]
+    odd = [q for q in results if q["verdict"] not in ("sat", "unsat")]
+    for q in odd:
+        inc.append(("mir2smt-conc", "threads=%d calls=%d n=%d: z3=%s cvc5=%s" % (q["threads"], q["calls_per_thread"], q["backends"], q["z3"], q["cvc5"])))
+    if sat:
+        okr, outr = replay_test(s, "rr_threads", {}, ["threads_stay_balanced"], timeout_s=1800, release=True)
+        rec["stress_replay"] = "reproduced" if not okr else "not reproduced"
+        log("    stress replay with real threads: %s" % rec["stress_replay"])
+        if not okr:
+            viol.append({"harness": "mir2smt-conc", "failed_checks": ["a thread schedule unbalances the round-robin picks"],
+                         "values": [str(sat[0]["counterexample_schedule"])], "native_replay": {"8 OS threads x 60000 calls (release)": "reproduced"},
+                         "what": "schedule %s for %d threads x %d calls over %d backends" % (sat[0]["counterexample_schedule"], sat[0]["threads"], sat[0]["calls_per_thread"], sat[0]["backends"]),
+                         "replay_output_tail": {"stress": outr[-600:]}})
+        else:
+            inc.append(("mir2smt-conc", "the solver found an unbalancing schedule %s but the stress run with real threads did not show it" % sat[0]["counterexample_schedule"]))
+    return rec
+
+
 def main(tier):
     t0 = time.time()
     with Scratch(PID) as s:
         metas = {k: v for k, v in METAS.items() if tier == "thorough" or not v.get("thorough_only")}
         recs, viol, known, inc, wall = kprop.decide(PID, tier, s, CRATE, metas, timeout_s=1500 if tier == "quick" else 7200,
                                                     harness_timeout=900 if tier == "quick" else 3600, jobs=8)
+        crec = concurrency_engine(s, viol, inc)
         return kprop.finish(PID, tier, t0, recs, viol, known, inc, STATIC,
-                            {"source_digest": s.src_digest, "kani_wall_s": round(wall, 1)})
+                            {"source_digest": s.src_digest, "kani_wall_s": round(wall, 1), "mir_smt_concurrency_engine": crec})
